@@ -5,7 +5,7 @@ CONSTANTS
   Levels = {}
   Calls = {}
   TextBytes = {0, 1, 2, 3, 4, 97}
-  MaxText = 4
+  MaxText = 3
   Ops = {"abort"}
   LogMax = 256
   AsFound = {}
